@@ -202,7 +202,8 @@ def one_op(p, inner=False):
 
 CUT_PATTERNS = ["RIROP", "IRORP", "RIRRORP", "IRROP", "RIORP", "RIRORRP", "RIROIOP", "RIROIROP", "IRORIP", "RIRDP", "IRDRP", "RIRORP",
                 "RIROSRRP", "RIRSORRP", "RISROP", "RIROIRSOP", "RIOIROP", "RIRTOP", "RTIROP",
-                "RAIROP", "RAIRDP", "ARIROP"]
+                "RAIROP", "RAIRDP", "ARIROP",
+                "ZRIZRZRORP", "ZRIZRZRDRP", "ZIZOP", "ZRIZROP"]      # Z: G92 E0 - the E at the exit may coincide with the E at the entry
 
 
 def op_visit(p):
@@ -440,6 +441,8 @@ class Renderer(object):  # pylint: disable=too-many-instance-attributes
                     # the user draws a region now (mid-cycle); the following I enters the most recent one
                     self.add_region(("reg", "new", (i * 131 + j * 17 + n_) % 10 ** 6))
                     rsel = len(self.regions) - 1
+                elif tok == "Z" and self.p["g92e"]:
+                    self.op(("sete", 0.0))
                 elif tok == "S" and self.p["g92e"]:
                     self.op(("sete", (0.0, 1.27, 5.08)[(i + n_) % 3]))
                 elif tok == "T":
